@@ -15,16 +15,30 @@ validation) against the state derived from its predecessor (`Spec.C01` proves th
 sequencer node commits).  Events `Ev.hdr k | Ev.dat k` deliver the genuine header / data of height `k`
 (adversarial items are C03).  DA and P2P ingress, duplication, delay and interleaving are all just *some event
 list*: every theorem quantifies over **all** event lists.  `run c ch evs` folds the events from
-`Sync.start c {}`; `runOps` additionally allows a clean stop/restart (`Sync.start` on the node's own store
-with the caches kept) at any position.
+`Sync.boot c {}` (`NewManager`, then the start of `SyncLoop`); `runOps` additionally allows a clean stop/restart
+(`Sync.boot` on the node's own store with the caches kept) at any position.
+
+**Which events.**  `Ev.hdr k | Ev.dat k` index the *genuine* parts of the chain.  Headers are signed (C03: a header
+that is not the proposer's is never admitted).  **Data received over P2P is not signed**: anybody can gossip a
+`Data` item naming any height.  Such items are the `JOp.junk d` operations of `runJ`: `d` is *any* `Data` whose
+claimed height lies outside the chain or which `types.Validate` rejects against the proposer's header of that
+height (`JunkData`; data that does validate against that header carries the committed transactions up to a
+collision of the data commitment — that is `Ev.dat`).  Safety, (b) and (c) are proved for runs **with** junk items
+anywhere (`C02_junk_data_harmless`, after /repo 4bb2ed2; before it one junk item for the next height terminated
+the loop).  Convergence (d) is proved for runs **without** junk items and is false with them
+(`C02_converges_junk_fails`, recorded finding): this is an explicit hypothesis of `C02_converges_partial`,
+`C02_reaches_top` and of everything in `Spec.C05` / `Spec.FNode` that concludes a height is reached.
 -/
 namespace Spec.C02
 open Wire Chain Sync
 
 variable {c : Cfg} {ch : PChain} {top : Nat}
 
-/-- `run` starts from what `Sync.start` builds on an empty store -/
+/-- `run` starts from what `NewManager` (`Sync.start`) builds on an empty store; the start of `SyncLoop` finds
+nothing to apply there (`Sync.boot` = `start`, then `loopStart`) -/
 theorem run_starts_from_start (c : Cfg) : ∃ ws, Sync.start c {} = some (fresh c, ws) := start_fresh c
+
+theorem run_starts_from_boot (g : GoodChain c ch top) : ∃ ws, Sync.boot c {} = some (fresh c, ws) := boot_fresh g
 
 /-! ## (a) safety, (c) the loop never dies — for every event list with restarts anywhere -/
 
@@ -63,7 +77,7 @@ theorem C02_height_monotone (g : GoodChain c ch top) (ops₁ ops₂ : List Op) :
     (runOps c ch ops₁).store.height ≤ (runOps c ch (ops₁ ++ ops₂)).store.height := by
   unfold runOps
   rw [runFrom_append]
-  exact (runFrom_safe g ops₂ (runOps_safe g ops₁)).2
+  exact (runFrom_safe g ops₂ (runOps_safe g ops₁) (runOps_quiet g ops₁)).2.2
 
 /-- **(b) No height is skipped, blocks are applied strictly in height order.**  The durable writes of every
 single step are, for the consecutive heights `h+1, h+2, …, h'` (old and new chain height) and in this order:
@@ -140,19 +154,68 @@ theorem C02_reaches_top (g : GoodChain c ch top) (dc : DistinctCommitments ch) (
 
 /-! ## (e) clean restart -/
 
-/-- **(e) A clean restart changes nothing the loop reads**: `Sync.start` on the node's own store with the
-caches kept succeeds; chain height, state, both caches, both seen-sets and every stored block up to the chain
-height are unchanged.  Theorems (a)–(d) above are stated for `runOps`, i.e. with restarts at any positions. -/
+/-- **(e) A clean restart changes nothing the loop reads.**  Model of a clean stop/restart: the caches are handed
+over unchanged (the real node writes them to the cache files with `gob` and reads them back — that this round trip
+is lossless is checked by the correspondence stream on every run, it is not a theorem), `NewManager` runs on the
+node's own store and `SyncLoop` starts (`Sync.boot`).  Events still in the channel buffers at the stop are lost in
+the real node; they count as *not delivered* here.  The statement: `boot` succeeds; the start of the loop finds
+nothing applicable (the node was quiet when it stopped); chain height, state, both caches, both seen-sets and
+every stored block up to the chain height are unchanged (only metadata — the DA submission watermarks — may be
+written).  Theorems (a)–(d) above are stated for `runOps`, i.e. with restarts at any positions. -/
 theorem C02_restart_transparent (g : GoodChain c ch top) (ops : List Op) :
     let n := runOps c ch ops
-    (∃ ws, Sync.start c n.store n = some (restart c n, ws)) ∧
-    (restart c n).store.height = n.store.height ∧ (restart c n).lastState = n.lastState ∧
-    (restart c n).hdrCache = n.hdrCache ∧ (restart c n).datCache = n.datCache ∧
-    (restart c n).seenH = n.seenH ∧ (restart c n).seenD = n.seenD ∧ (restart c n).alive = true ∧
-    (∀ k, k ≤ n.store.height → (restart c n).store.getBlock k = n.store.getBlock k) := by
+    (∃ ws, Sync.boot c n.store n = some (reboot c n, ws)) ∧
+    (reboot c n).store.height = n.store.height ∧ (reboot c n).lastState = n.lastState ∧
+    (reboot c n).hdrCache = n.hdrCache ∧ (reboot c n).datCache = n.datCache ∧
+    (reboot c n).seenH = n.seenH ∧ (reboot c n).seenD = n.seenD ∧ (reboot c n).alive = true ∧
+    (∀ k, k ≤ n.store.height → (reboot c n).store.getBlock k = n.store.getBlock k) := by
   intro n
-  obtain ⟨a1, a2, a3, a4, a5, a6, a7, a8, a9, _⟩ := restart_spec g (runOps_safe g ops)
-  exact ⟨a1, a2, a3, a4, a5, a6, a7, a8, a9⟩
+  obtain ⟨b1, b2⟩ := reboot_spec g (runOps_safe g ops) (runOps_quiet g ops)
+  obtain ⟨_, a2, a3, a4, a5, a6, a7, a8, a9, _⟩ := restart_spec g (runOps_safe g ops)
+  rw [b2] at b1 ⊢
+  exact ⟨b1, a2, a3, a4, a5, a6, a7, a8, a9⟩
+
+/-- after every step of every run nothing is applicable: the next block's header or data is missing -/
+theorem C02_quiet (g : GoodChain c ch top) (ops : List Op) :
+    ¬ ((runOps c ch ops).store.height + 1 ∈ keysH (runOps c ch ops) ∧
+       (runOps c ch ops).store.height + 1 ∈ keysD (runOps c ch ops)) :=
+  runOps_quiet g ops
+
+/-! ## junk data events (unauthenticated P2P data) -/
+
+/-- **Junk data is harmless for safety.**  For every run of genuine events, clean restarts and — anywhere, any
+number — data events carrying *any* `Data` that does not validate against the proposer's header of the height it
+claims (`JunkOK`): the loop is alive ((c)), every stored block up to the chain height is the proposer's and the
+state is the state after exactly that height ((a)), the height is monotone along the run ((b)), and it never
+exceeds `ready` of the *genuine* events (junk completes nothing).  Before /repo 4bb2ed2 one junk item cached for
+the next height terminated the loop when the genuine header arrived (`C02_junk_witness`). -/
+theorem C02_junk_data_harmless (g : GoodChain c ch top) (js : List JOp) (hj : JunkOK ch js) :
+    (runJ c ch js).alive = true ∧
+    (runJ c ch js).store.height = (runJ c ch js).lastState.lastHeight ∧
+    (runJ c ch js).lastState = stateAt c ch (runJ c ch js).store.height ∧
+    (∀ k, c.initialHeight ≤ k → k ≤ (runJ c ch js).store.height →
+      ∃ b sb, ch k = some b ∧ (runJ c ch js).store.getBlock k = some sb ∧
+        sb.sh = b.sh ∧ sb.savedSig = b.sh.sig ∧ sb.data.txs = b.data.txs ∧ (b.data.txs ≠ [] → sb.data = b.data)) ∧
+    (runJ c ch js).store.height ≤ ready c ch top (evsOf (opsOf js)) ∧
+    (∀ j1 j2, js = j1 ++ j2 → (runJ c ch j1).store.height ≤ (runJ c ch js).store.height) := by
+  have hs := runJ_safe g js hj
+  refine ⟨hs.alive, hs.hs g, hs.st, hs.chain, ?_, ?_⟩
+  · obtain ⟨r1, _, r3⟩ := ready_spec g (evsOf (opsOf js))
+    by_cases h : (runJ c ch js).store.height ≤ ready c ch top (evsOf (opsOf js))
+    · exact h
+    · exact absurd (hs.sound (ready c ch top (evsOf (opsOf js)) + 1) (by omega) (by omega)) r3
+  · intro j1 j2 e
+    subst e
+    have h1 : JunkOK ch j1 := fun d hd => hj d (List.mem_append_left _ hd)
+    have h2 : JunkOK ch j2 := fun d hd => hj d (List.mem_append_right _ hd)
+    have hs1 := runJFrom_safe g j1 h1 (fresh_safe g).weaken (fresh_quiet g)
+    unfold runJ
+    rw [runJFrom_append]
+    exact (runJFrom_safe g j2 h2 hs1.1 hs1.2.1).2.2
+
+/-- a run without junk items is a `runOps` run (so the theorem above contains (a)–(c)) -/
+theorem runJ_without_junk (c : Cfg) (ch : PChain) (ops : List Op) : runJ c ch (ops.map .op) = runOps c ch ops :=
+  runJ_ops c ch ops
 
 /-! ## the full statement is false of the current code -/
 
@@ -175,15 +238,52 @@ theorem C02_converges_fails : ¬ C02_converges_full := by
   rw [wf_stall, wf_ready4] at this
   exact absurd this (by decide)
 
+theorem witness3_good : GoodChain wC wch3 3 := goodChain_of_check wC _ 3 (by decide) wf_check3
+theorem witness3_distinct : DistinctCommitments wch3 := distinct_of_check 1 3 _ wf_distinct3
+
+/-- `wJunk2` (the genuine metadata of block 2 with another transaction) is a junk item for the witness chain -/
+theorem witness_junk : JunkData wch3 wJunk2 := junkData_of_check wf_junk.1
+
+/-- **The witness of the repaired defect** (kernel-checked): header 1, then a junk data item for height 2, then the
+genuine header 2 — the loop is alive at height 1 (before /repo 4bb2ed2: `SyncLoop` returned; replayed on the real
+loop by stream C02, signature `C02/loop-terminated/junk-p2p-data-for-next-height`); when the genuine data 2 and
+block 3 arrive the node holds the whole chain. -/
+theorem C02_junk_witness :
+    (runJ wC wch3 wJunkOps).alive = true ∧ (runJ wC wch3 wJunkOps).store.height = 1 ∧
+    (runJ wC wch3 (wJunkOps ++ wJunkRest)).store.height = 3 ∧
+    holdsChain3 (runJ wC wch3 (wJunkOps ++ wJunkRest)).store = true := wf_junk.2
+
+/-- convergence as stated, for runs in which third parties take part: with junk data items anywhere the height is
+`ready` of the genuine events -/
+def C02_converges_junk_full : Prop :=
+  ∀ (c : Cfg) (ch : PChain) (top : Nat) (js : List JOp), GoodChain c ch top → DistinctCommitments ch → JunkOK ch js →
+    (runJ c ch js).store.height = ready c ch top (evsOf (opsOf js))
+
+/-- **… which fails** (kernel-checked; distinct commitments, so this is not the finding above): the genuine data
+of block 2 arrives first (cached at height 2, its commitment marked seen), a junk item for height 2 **replaces it
+in the cache** (one slot per height), header 2 arrives and the junk is dropped; from then on every delivery of the
+genuine data 2 is dropped as "already seen" and the node stays at height 1 although everything up to 3 was
+delivered — twice.  Recorded finding `C02/stall/junk-p2p-data-replaced-cached-data`; a repair needs a cache that
+keeps several candidates per height or authenticated P2P data. -/
+theorem C02_converges_junk_fails : ¬ C02_converges_junk_full := by
+  intro h
+  have hj : JunkOK wch3 wJunkStall := by
+    intro d hd
+    have : d = wJunk2 := by
+      simp only [wJunkStall, wAll, List.map_cons, List.map_nil, List.cons_append, List.nil_append, List.mem_cons,
+        JOp.junk.injEq, reduceCtorEq, false_or, List.not_mem_nil, or_false] at hd
+      exact hd
+    rw [this]; exact witness_junk
+  have := h wC wch3 3 wJunkStall witness3_good witness3_distinct hj
+  rw [wf_junkStall.1, wf_junkStall.2.2] at this
+  exact absurd this (by decide)
+
 /-! ## non-vacuity -/
 
 /-- the hypotheses of (a)–(c) are met by a chain the producer model builds, with repeated transaction lists -/
 example : GoodChain wC wch 4 ∧ wProd.store.height = 4 ∧
     (wch 2).map (·.data.txs) = some [[7]] ∧ (wch 4).map (·.data.txs) = some [[7]] :=
   ⟨witness_good, wf_chain⟩
-
-theorem witness3_good : GoodChain wC wch3 3 := goodChain_of_check wC _ 3 (by decide) wf_check3
-theorem witness3_distinct : DistinctCommitments wch3 := distinct_of_check 1 3 _ wf_distinct3
 
 /-- the hypotheses of (d) are met, and the theorem yields a non-trivial height: the first three blocks,
 delivered out of order and with duplicates, are all applied -/
@@ -211,14 +311,23 @@ def syncCfg (pc : Producer.Cfg) : Cfg :=
 def chainOf (pc : Producer.Cfg) (pn : Producer.Node) : PChain :=
   clip pc.initialHeight pn.store.height pn.store.getBlock
 
-/-- SHA-256 yields the commitment of the empty transaction list for no other list (a second pre-image would be
-needed); the only cryptographic assumption of the connection below -/
-def EmptyCommitmentUnique : Prop := ∀ d : Data, d.daCommitment = emptyDataHash → d.txs = []
+/-- **No block of the chain in hand is a second pre-image of the empty commitment**: a block of `ch` whose data
+commitment is the commitment of the empty transaction list has no transactions.  This is a statement about the
+finitely many blocks of one chain (it is decidable for a concrete chain and holds unless that chain contains an
+explicit SHA-256 collision with the empty list) — **not** an assumption about all of SHA-256's domain.  The only
+cryptographic assumption of the connection below; `goodChain_of_producer_or_collision` states the same with the
+collision as an explicit alternative. -/
+def EmptyCommitmentUnique (ch : PChain) : Prop :=
+  ∀ k b, ch k = some b → b.data.daCommitment = emptyDataHash → b.data.txs = []
+
+/-- an explicit second pre-image of the empty commitment inside the chain -/
+def EmptyCommitmentCollision (ch : PChain) : Prop :=
+  ∃ k b, ch k = some b ∧ b.data.txs ≠ [] ∧ b.data.daCommitment = Data.daCommitment {}
 
 /-- **Every chain the sequencer node commits (C01) is a `GoodChain`**, i.e. the theorems of this file apply
 to every chain of `Spec.C01`: for every list of sequencing-layer responses and execution outcomes. -/
 theorem goodChain_of_producer {pc : Producer.Cfg} {pn : Producer.Node} (hi : Producer.Inv pc pn)
-    (hm : Producer.MetaInv pc pn) (hcol : EmptyCommitmentUnique) :
+    (hm : Producer.MetaInv pc pn) (hcol : EmptyCommitmentUnique (chainOf pc pn)) :
     GoodChain (syncCfg pc) (chainOf pc pn) pn.store.height := by
   have hpos := hi.ihPos
   have dom : ∀ k b, chainOf pc pn k = some b → (pc.initialHeight ≤ k ∧ k ≤ pn.store.height) ∧ pn.store.getBlock k = some b := by
@@ -251,18 +360,73 @@ theorem goodChain_of_producer {pc : Producer.Cfg} {pn : Producer.Node} (hi : Pro
     obtain ⟨⟨h1, h2⟩, hb⟩ := dom k b hk
     obtain ⟨b', hb', hl⟩ := hi.chain k h1 h2
     rw [hb] at hb'; cases hb'
-    exact hcol b.data (by rw [hl.dataHash]; exact he)
+    exact hcol k b hk (by rw [hl.dataHash]; exact he)
   · intro k b hk _
     obtain ⟨⟨h1, h2⟩, hb⟩ := dom k b hk
     exact hm k b h1 h2 hb
 
 /-- in particular from a fresh start, for every run of the producer -/
 theorem goodChain_of_run (pc : Producer.Cfg) (hpos : 1 ≤ pc.initialHeight) (rs : List (Producer.SeqResp × Producer.ExecResp))
-    (hcol : EmptyCommitmentUnique) :
+    (hcol : EmptyCommitmentUnique (chainOf pc (Producer.run pc (Producer.freshNode pc) rs))) :
     GoodChain (syncCfg pc) (chainOf pc (Producer.run pc (Producer.freshNode pc) rs))
       (Producer.run pc (Producer.freshNode pc) rs).store.height :=
   goodChain_of_producer (Producer.run_inv (Producer.freshNode_inv pc hpos) rs)
     (Producer.run_metaInv (Producer.freshNode_inv pc hpos) (Producer.freshNode_metaInv pc hpos) rs) hcol
+
+/-- the same with the cryptographic assumption as an explicit alternative: every chain the sequencer node commits
+is a `GoodChain`, **or it contains an explicit SHA-256 collision** (a block with transactions whose data
+commitment equals the commitment of the empty list) -/
+theorem goodChain_of_producer_or_collision {pc : Producer.Cfg} {pn : Producer.Node} (hi : Producer.Inv pc pn)
+    (hm : Producer.MetaInv pc pn) :
+    GoodChain (syncCfg pc) (chainOf pc pn) pn.store.height ∨ EmptyCommitmentCollision (chainOf pc pn) := by
+  by_cases h : EmptyCommitmentUnique (chainOf pc pn)
+  · exact Or.inl (goodChain_of_producer hi hm h)
+  · right
+    apply Classical.byContradiction
+    intro hno
+    apply h
+    intro k b hb hc
+    apply Classical.byContradiction
+    intro ht
+    exact hno ⟨k, b, hb, ht, hc⟩
+
+/-- the hypothesis is met (by evaluation) on the witness chain the producer model builds -/
+example : EmptyCommitmentUnique wch := fun k b hb hc =>
+  witness_good.emptyTxs k b hb (by unfold IsEmpty; rw [← (witness_good.facts hb).dataHash]; exact hc)
+
+/-! ## `DistinctCommitments` is a statement about the chain in hand
+
+`DistinctCommitments ch` quantifies over the blocks **of `ch`** only (decidable for a concrete chain:
+`CheckDistinct`).  Its `dcInj` half is the hypothesis the recorded finding violates.  Its `hashInj` half needs no
+assumption beyond "no two *different* headers of the chain have the same SHA-256 hash": the headers of a good chain
+at different heights are different (the header contains its height). -/
+
+/-- no explicit SHA-256 collision among the headers of the chain: equal header hashes only for equal headers -/
+def NoHeaderCollision (ch : PChain) : Prop :=
+  ∀ j k bj bk, ch j = some bj → ch k = some bk → bj.sh.hdr.hash = bk.sh.hdr.hash → bj.sh.hdr = bk.sh.hdr
+
+/-- … and no two non-empty blocks of the chain with different transaction lists and the same data commitment -/
+def NoDataCollision (ch : PChain) : Prop :=
+  ∀ j k bj bk, ch j = some bj → ch k = some bk → bj.data.daCommitment = bk.data.daCommitment →
+    bj.data.txs = bk.data.txs
+
+/-- the non-empty blocks of the chain carry pairwise different transaction lists (what the recorded finding
+`C02/stall/tx-list-repeats-an-earlier-block` violates) -/
+def DistinctTxLists (ch : PChain) : Prop :=
+  ∀ j k bj bk, ch j = some bj → ch k = some bk → bj.data.txs ≠ [] → bj.data.txs = bk.data.txs → j = k
+
+/-- **`DistinctCommitments` from what it is really about**: a good chain whose non-empty blocks have pairwise
+different transaction lists satisfies `DistinctCommitments` unless it contains an explicit SHA-256 collision
+(two different headers with the same hash, or two different transaction lists with the same commitment). -/
+theorem distinctCommitments_of_txLists (g : GoodChain c ch top) (hH : NoHeaderCollision ch) (hD : NoDataCollision ch)
+    (ht : DistinctTxLists ch) : DistinctCommitments ch := by
+  constructor
+  · intro j k bj bk hj hk e
+    have := hH j k bj bk hj hk e
+    rw [← (g.facts hj).height, ← (g.facts hk).height, this]
+  · intro j k bj bk hj hk nj _ e
+    have hne : bj.data.txs ≠ [] := fun h => nj ((g.empty_iff hj).mpr h)
+    exact ht j k bj bk hj hk hne (hD j k bj bk hj hk e)
 
 
 /-! ## small facts about single events (any node) -/
